@@ -27,6 +27,7 @@ For every operator class the property reads  structure(mv(x)) == self.out_struct
 from __future__ import annotations
 
 import ast
+import os
 
 import z3
 
@@ -884,6 +885,69 @@ def build_reduced(ck):
         return sc
     for pattern in ('HH', 'HO', 'OH', 'HOH', 'OHH', 'HHO', 'OHO', 'HHH'):
         ck.explore(f'{RULES}.HomothetyRule.apply', scenario(pattern), T, label=f'dtype-facet:{pattern}', axioms=AX)
+
+    def placement(pattern):
+        """RECTANGULAR neighbours: the chain maps st[n] -> ... -> st[0], operator i : st[i+1] -> st[i] (scalar operators are
+        square); the rebuilt scalar operator must sit on the structure of the END it is moved to — the output structure
+        of the first operand (left) or the input structure of the last one (right) — or the reduced operator would
+        declare structures that are not those of its parts"""
+        def sc(S):
+            S.oracle = {'name': 'reduced_scalars'}
+            S.inputs['chain'] = pattern
+            S.I.theory.externals['jax.numpy.array'] = np_array
+            S.I.theory.externals['jax.numpy.asarray'] = np_array
+            st = [sds(S, 's0')]
+            ops = []
+            for i, c in enumerate(pattern):
+                if c == 'H':
+                    st.append(st[-1])
+                    v = SA.SLeaf(z3.Const(f'value{i}', ST.Leaf))
+                    S.assume(z3.And(ST.f_ndim(v.term) == 0, v.wf()))
+                    ops.append(S.new('HomothetyOperator', value=v, _in_structure=st[-1]))
+                else:
+                    st.append(sds(S, f's{i + 1}'))
+                    o = Obj(Other, tag=f'O{i}')
+                    o.fields['ins'], o.fields['outs'] = st[i + 1], st[i]
+                    ops.append(o)
+            sizes = {}
+
+            def size(which):
+                def f(interp, fi, args, kwargs):
+                    return sizes.setdefault((id(args[0]), which), fresh_int(which))
+                return f
+            S.I.contracts = dict(operand_contracts(S))
+            S.I.contracts[f'{BASE}.in_size'] = size('in_size')
+            S.I.contracts[f'{BASE}.out_size'] = size('out_size')
+            rule = Obj(P.cls('HomothetyRule'))
+            out = S.call(S.I.getattr(rule, 'apply'), [B.PyList(list(ops))])
+            if not out.normal:
+                S.oblige('bounded', False, tag=f'no-exception-{out.value.name}')
+                return
+            res = B.as_seq(S.I, out.value).py_items()
+            ok = len(res) >= 1
+            S.oblige('bounded', ok, tag='non-empty-result')
+            if not ok:
+                return
+
+            def ends(o):
+                if isinstance(o, Obj) and o.cls is Other:
+                    return o.fields['ins'], o.fields['outs']        # (the synthetic operand: its declared structures)
+                i_, o_ = S.call(S.I.getattr(o, 'in_structure'), []), S.call(S.I.getattr(o, 'out_structure'), [])
+                return (i_.value if i_.normal else None), (o_.value if o_.normal else None)
+            def same(a, b):
+                if a is None or b is None:
+                    return False
+                return True if a is b else struct_eq(a, b)
+            first_out, last_in = ends(res[0])[1], ends(res[-1])[0]
+            if os.environ.get('VF_DEBUG'):
+                print('placement', pattern, [getattr(o, 'cls', None) and o.cls.name for o in res], first_out, st[0], last_in, st[-1])
+            S.oblige('bounded', same(first_out, st[0]), tag='reduced-chain-starts-on-the-output-structure-of-the-original')
+            S.oblige('bounded', same(last_in, st[-1]), tag='reduced-chain-ends-on-the-input-structure-of-the-original')
+            for a, b in zip(res, res[1:]):
+                S.oblige('bounded', same(ends(a)[0], ends(b)[1]), tag='consecutive-operators-of-the-reduced-chain-match')
+        return sc
+    for pattern in ('OH', 'HO', 'OHO', 'OOH', 'HOO', 'OHH'):
+        ck.explore(f'{RULES}.HomothetyRule.apply', placement(pattern), T, label=f'placement:{pattern}', axioms=AX)
     ck.bounded.append({'what': 'HomothetyRule.apply in the dtype facet: chains of <= 3 operators, every placement of scalar '
                                'operators (the loop body `value *= operand.value` is executed for 0-3 scalar factors; pytrees '
                                'with a symbolic number of leaves, symbolic dtypes and weak types, both precision modes)',
